@@ -155,8 +155,6 @@ def scenario(sc, tmproot, chooser_factory):
             vkw[sc.get("uc_name", "use_channel")] = sc["uc"]
     tw = W.TokenizerWorker(src, observers, min_dur=(mn - 0.5) * w, max_dur=(mx + 0.5) * w, max_silence=(sl + 0.5) * w,
                            drop_trailing_silence=drop, strict_min_dur=strict, **vkw)
-    if patched_val is not None:
-        util.AudioEnergyValidator.is_valid = patched_val
     tw._ctl_name = "tok"
     S.qnames[id(sched.inbox_of(tw))] = "tok"
     stop_after = sc["stop_after"]
@@ -180,7 +178,11 @@ def scenario(sc, tmproot, chooser_factory):
                 sched.SCHED.point("idle")
                 sched.SCHED.note(pt="idle")
             tw.stop_all()
-    status = sched.run_main(main, max_steps=sc.get("max_steps", 4000))
+    try:
+        status = sched.run_main(main, max_steps=sc.get("max_steps", 4000))
+    finally:
+        if patched_val is not None:
+            util.AudioEnergyValidator.is_valid = patched_val
     # ---- projection of what can be observed at the end -----------------------------------------
     nread = len(blocks)
     heard = not (energy and sc.get("uc") in (1, -1))       # channel 1 is the quiet one
